@@ -338,9 +338,9 @@ theorem finishMerge_nn {sf : Flags} {sk : CompKind} {scs : List (Key × Node)} {
 def RecNN (rec : Node → Node → Except Err (Node × Bool)) : Prop :=
   ∀ a b r s, NN a = true → NN b = true → rec a b = .ok (r, s) → NN r = true
 
-theorem mergeStep_nn {rec : Node → Node → Except Err (Node × Bool)} (hrec : RecNN rec) {sf : Flags}
+theorem mergeStep_nn {exc : List Path} {rec : Node → Node → Except Err (Node × Bool)} (hrec : RecNN rec) {sf : Flags}
     (hsf : nnF sf = true) {sk : CompKind} {acc acc' : List (Key × Node)} {kv : Key × Node}
-    (hacc : nnList acc = true) (hkv : NN kv.2 = true) (h : mergeStep rec sf sk acc kv = .ok acc') :
+    (hacc : nnList acc = true) (hkv : NN kv.2 = true) (h : mergeStep rec sf sk exc acc kv = .ok acc') :
     nnList acc' = true := by
   unfold mergeStep at h
   split at h
@@ -367,9 +367,9 @@ theorem mergeStep_nn {rec : Node → Node → Except Err (Node × Bool)} (hrec :
             · exact removeChildE_nn hsf hacc h
             · exact setChild_nn hsf hnw hacc h
 
-theorem mergeLoop_nn {rec : Node → Node → Except Err (Node × Bool)} (hrec : RecNN rec) {sf : Flags}
+theorem mergeLoop_nn {exc : List Path} {rec : Node → Node → Except Err (Node × Bool)} (hrec : RecNN rec) {sf : Flags}
     (hsf : nnF sf = true) (sk : CompKind) : ∀ (acc ocs acc' : List (Key × Node)), nnList acc = true →
-    nnList ocs = true → mergeLoop rec sf sk acc ocs = .ok acc' → nnList acc' = true
+    nnList ocs = true → mergeLoop rec sf sk exc acc ocs = .ok acc' → nnList acc' = true
   | acc, [], acc', hacc, _, h => by simp only [mergeLoop] at h; cases h; exact hacc
   | acc, kv :: rest, acc', hacc, ho, h => by
     obtain ⟨k, v⟩ := kv
